@@ -38,17 +38,41 @@ def gen_children(r, depth, budget, top=False):
     return kids
 
 
+NSURI = {"P": "nsP", "Q": "nsQ", "D": "nsD"}
+NSPFX = {"P": "p", "Q": "q"}
+USE_NS = [False]
+
+
 def gen_elem(r, depth, budget):
     e = dict(kind="e", name=r.choice(ENAMES), attrs=[], kids=[])
+    if USE_NS[0]:
+        # namespaces: two prefixes (p, q) and a default namespace declared on inner elements
+        e["ns"] = r.weighted([(None, 5), ("P", 3), ("Q", 2), ("D", 1)])
     for an in ANAMES:
         if budget[0] > 0 and r.chance(1, 4):
             budget[0] -= 1
             e["attrs"].append(dict(kind="a", name=an, attrs=[], kids=[]))
+            if USE_NS[0] and r.chance(1, 4):
+                e["attrs"][-1]["ns"] = "P"
     e["kids"] = gen_children(r, depth, budget)
     return e
 
 
-def gen_doc(r, maxnodes):
+def gen_doc(r, maxnodes, ns=None):
+    USE_NS[0] = r.chance(1, 3) if ns is None else ns
+    try:
+        return gen_doc1(r, maxnodes)
+    finally:
+        uses = USE_NS[0]
+        USE_NS[0] = False
+
+
+def expanded(n):
+    """expanded name as in the node table: local or {uri}local"""
+    return "{%s}%s" % (NSURI[n["ns"]], n["name"]) if n.get("ns") else n["name"]
+
+
+def gen_doc1(r, maxnodes):
     budget = [maxnodes - 2]
     rootkids = []
     if r.chance(1, 6):
@@ -61,7 +85,7 @@ def gen_doc(r, maxnodes):
     for k in rootkids:
         if k["kind"] != "p":
             k["name"] = k["name"] if k["kind"] == "e" else ""
-    return dict(kind="r", name="", attrs=[], kids=rootkids)
+    return dict(kind="r", name="", attrs=[], kids=rootkids, nsdoc=USE_NS[0])
 
 
 def chain_doc(names):
@@ -72,15 +96,22 @@ def chain_doc(names):
     return dict(kind="r", name="", attrs=[], kids=[cur])
 
 
-def xml_of(n):
+def xml_of(n, dflt="", top=False):
     k = n["kind"]
     if k == "r":
-        return "".join(xml_of(c) for c in n["kids"])
+        return "".join(xml_of(c, "", bool(n.get("nsdoc"))) for c in n["kids"])
     if k == "e":
-        at = "".join(' %s="%s"' % (a["name"], a.get("value", "1")) for a in n["attrs"])
+        ns = n.get("ns")
+        tag = (NSPFX[ns] + ":" + n["name"]) if ns in NSPFX else n["name"]
+        decl = ' xmlns:p="nsP" xmlns:q="nsQ"' if top else ""
+        if ns == "D" and dflt != "D":
+            decl += ' xmlns="nsD"'; dflt = "D"
+        elif ns is None and dflt == "D":
+            decl += ' xmlns=""'; dflt = ""
+        at = "".join(' %s%s="%s"' % ("p:" if a.get("ns") else "", a["name"], a.get("value", "1")) for a in n["attrs"])
         if not n["kids"]:
-            return "<%s%s/>" % (n["name"], at)
-        return "<%s%s>%s</%s>" % (n["name"], at, "".join(xml_of(c) for c in n["kids"]), n["name"])
+            return "<%s%s%s/>" % (tag, decl, at)
+        return "<%s%s%s>%s</%s>" % (tag, decl, at, "".join(xml_of(c, dflt) for c in n["kids"]), tag)
     if k == "t":
         return "t"
     if k == "c":
@@ -147,7 +178,7 @@ def table_of(root):
         if k == "r":
             toks.append("r")
         elif k in ("e", "a", "p"):
-            toks.append("%s:%s:%d" % (k, n["name"], par))
+            toks.append("%s:%s:%d" % (k, expanded(n), par))
         else:
             toks.append("%s::%d" % (k, par))
         for a in n["attrs"]:
@@ -219,24 +250,40 @@ def well_formed(root):
 
 # ------------------------------------------------------------------------------------------------ patterns
 
-POOL = {"e": ENAMES}
+POOL = {"e": ENAMES, "q": [], "ns": False}
 
 
 def set_pool(root):
     """bias element names in generated patterns towards the names that occur in the document"""
     names = []
 
+    qn = []
+
     def go(n):
         if n["kind"] == "e":
             names.append(n["name"])
+            if n.get("ns") in NSPFX:
+                qn.append((NSPFX[n["ns"]], NSURI[n["ns"]], n["name"]))
         for c in n["kids"]:
             go(c)
     if root is not None:
         go(root)
     POOL["e"] = (sorted(set(names)) * 3 + ENAMES) if names else ENAMES
+    POOL["q"] = sorted(set(qn))
+    POOL["ns"] = bool(root is not None and root.get("nsdoc"))
 
 
 def gen_test(r, attr, exotic):
+    if POOL["ns"] and r.chance(1, 3):
+        # prefixed name tests: p:name, q:name, p:*, q:*  (prefixes bound on the document element / the stylesheet)
+        pfx, uri = r.choice([("p", "nsP"), ("q", "nsQ")])
+        if r.chance(1, 3):
+            return ("w", (pfx, uri))
+        if attr:
+            return ("q", ("p", "nsP", r.choice(ANAMES)))
+        if POOL["q"] and r.chance(2, 3):
+            return ("q", r.choice(POOL["q"]))
+        return ("q", (pfx, uri, r.choice(POOL["e"])))
     if attr:
         if exotic and r.chance(1, 3):
             return (r.choice(["node", "text", "comment"]), None)
@@ -274,7 +321,8 @@ def gen_step(r, last, exotic):
         # attribute::node()[k] counts the namespace-declaration attributes of the DOM (xmlns:xml on the document
         # element), which the model's node table does not contain: no positional predicates on such steps
         preds = [p for p in preds if p[0] in ("a", "c", "na")]
-    return dict(attr=attr, test=test, preds=preds)
+    # the axis may be spelled out: child::name / attribute::name
+    return dict(attr=attr, test=test, preds=preds, explicit=r.chance(1, 5))
 
 
 def gen_path(r, exotic):
@@ -301,6 +349,10 @@ def gen_pattern(r, exotic=False):
 
 def render_test(t):
     k, a = t
+    if k == "q":
+        return "%s:%s" % (a[0], a[2])
+    if k == "w":
+        return "%s:*" % a[0]
     return {"n": a, "any": "*", "text": "text()", "comment": "comment()", "pi": "processing-instruction()",
             "pl": "processing-instruction('%s')" % a, "node": "node()"}[k]
 
@@ -312,8 +364,14 @@ def render_pred(p):
             "a": "[@%s]" % a, "c": "[%s]" % a, "na": "[not(@%s)]" % a}[k]
 
 
+def axis_text(s):
+    if s.get("explicit"):
+        return "attribute::" if s["attr"] else "child::"
+    return "@" if s["attr"] else ""
+
+
 def render_step(s):
-    return ("@" if s["attr"] else "") + render_test(s["test"]) + "".join(render_pred(p) for p in s["preds"])
+    return axis_text(s) + render_test(s["test"]) + "".join(render_pred(p) for p in s["preds"])
 
 
 def render_path(p):
@@ -333,6 +391,8 @@ def render_pattern(P):
 
 def tok_test(t):
     k, a = t
+    if k in ("q", "w"):
+        return k + "." + ".".join(a)
     return "%s.%s" % (k, a) if k in ("n", "pl") else k
 
 
@@ -345,10 +405,15 @@ def tok_pred(p):
     return k
 
 
+def tok_axis(s):
+    ax = "a" if s["attr"] else "c"
+    return ax.upper() if s.get("explicit") else ax
+
+
 def tok_path(p):
     out = ["abs" if p["abs"] else "rel"]
     for sep, s in p["steps"]:
-        out.append("%s:%s:%s:%s" % (sep, "a" if s["attr"] else "c", tok_test(s["test"]),
+        out.append("%s:%s:%s:%s" % (sep, tok_axis(s), tok_test(s["test"]),
                                     ",".join(tok_pred(q) for q in s["preds"]) or "-"))
     return " ".join(out)
 
@@ -394,13 +459,13 @@ def shape_of(P):
     """pattern text with names and numbers abstracted (N, K): the key known findings are matched on"""
     def st(s):
         k, a = s["test"]
-        t = {"n": "N", "any": "*", "pl": "processing-instruction('N')"}.get(k) or render_test(s["test"])
+        t = {"n": "N", "any": "*", "pl": "processing-instruction('N')", "q": "P:N", "w": "P:*"}.get(k) or render_test(s["test"])
         ps = ""
         for pk, pa in s["preds"]:
             ps += {"i": "[K]", "last": "[last()]", "pe": "[position()=K]", "pnl": "[position()!=last()]", "a": "[@N]",
                    "le": "[last()=K]", "lg": "[last()>K]", "pll": "[position()<last()]", "lm1": "[last()-1]",
                    "c": "[N]", "na": "[not(@N)]"}[pk]
-        return ("@" if s["attr"] else "") + t + ps
+        return axis_text(s) + t + ps
     outs = []
     for p in P:
         if not p["steps"]:
